@@ -146,6 +146,9 @@ def load_corpus(pid):
 def write_replay(pid, name, payload):
     d = os.path.join(VERIF, 'replays')
     os.makedirs(d, exist_ok=True)
+    tag = os.environ.get('VERIF_REPLAY_TAG')
+    if tag:
+        name = tag + '-' + name
     p = os.path.join(d, name)
     with open(p, 'w') as f:
         json.dump(payload, f, indent=1, sort_keys=True)
@@ -350,7 +353,9 @@ def _run_check(prop, tier, seed, replay, t0, violations, known_lines):
         'wall_s': round(time.time() - t0, 1),
         'violations': len(violations),
     }
-    with open(os.path.join(VERIF, 'evidence', pid + '.json'), 'w') as f:
+    evdir = os.environ.get('VERIF_EVIDENCE_DIR') or os.path.join(VERIF, 'evidence')
+    os.makedirs(evdir, exist_ok=True)
+    with open(os.path.join(evdir, pid + '.json'), 'w') as f:
         json.dump(ev, f, indent=1)
     for l in known_lines:
         print(l)
